@@ -1,7 +1,6 @@
 package parser
 
 import (
-	"fmt"
 	"strconv"
 
 	"github.com/vektah/gqlparser/v2/ast"
@@ -106,7 +105,21 @@ func (p *parser) next() lexer.Token {
 	// Increment the token count before reading the next token
 	p.tokenCount++
 	if p.maxTokenLimit != 0 && p.tokenCount > p.maxTokenLimit {
-		p.err = fmt.Errorf("exceeded token limit of %d", p.maxTokenLimit)
+		// report the token that exceeds the limit (or, failing that, the last one read)
+		// as a located error of the source, like every other parse error
+		tok := p.prev
+		if p.peeked {
+			tok = p.peekToken
+		}
+		line, column := tok.Pos.Line, tok.Pos.Column
+		if line < 1 || column < 1 {
+			line, column = 1, 1
+		}
+		name := ""
+		if p.lexer.Source != nil {
+			name = p.lexer.Name
+		}
+		p.err = gqlerror.ErrorLocf(name, line, column, "exceeded token limit of %d", p.maxTokenLimit)
 		return p.prev
 	}
 	if p.peeked {
